@@ -281,6 +281,8 @@ fn cells(tier: Tier, seed: u64) -> Vec<Cell> {
             v.push(Cell { k, n, trials, rng: if n % 3 == 0 { RngKind::ChaCha8 } else { RngKind::Small }, seed: mix(seed, (k * 100_003 + n) as u64), prefill: 0 });
         }
     }
+    // very long streams relative to k (n/k = 3e6: the take probability k/n is far below anything the cells above see)
+    v.push(Cell { k: 16, n: 48_000_000, trials: tier.pick(160, 640), rng: RngKind::Small, seed: mix(seed, 16 * 100_003 + 48_000_000), prefill: 0 });
     // samplers reused after clear(): same requirement as for fresh ones
     for &(k, n, prefill) in &[(1usize, 5usize, 40usize), (4, 17, 200), (8, 33, 1000), (64, 384, 4000), (64, 1280, 800), (64, 1280, 20_000), (128, 640, 3000), (16, 60, 70)] {
         let exact = n <= 4 * k + 1;
@@ -295,7 +297,7 @@ pub fn checks() -> Vec<Box<dyn DynCheck>> {
 }
 
 pub fn run(ctx: &Ctx) {
-    ctx.set_rule("cells (k, n): exact regime n <= 4k+1 for k in {1,2,3,4,8,16,32} (thorough also 64, 100) with n in {k+1,k+2,2k,3k,4k-1,4k,4k+1} plus generated n; gap regime k in {64,128,256} (thorough 1024) with n from 4k+2 to 64k and 100000 plus generated n. Each cell runs many independent trials (SmallRng / ChaCha8 seeded from VERIF_SEED), the stream being position ids. Exact regime: every single position's inclusion count against Binomial(T, k/n) at z = 6 plus a chi-square over positions; gap regime: classes first k / plain phase / switch item / the k items after it / stream deciles / last k against k/n within the documented envelope (1 + ln(n/4k))/k plus 6 cluster-robust standard errors. A flagged cell is re-measured with 4x the trials and fresh seeds; only a confirmed deviation is a violation. Eight further cells feed a sampler, clear() it and then measure the same frequencies on the reused sampler. Non-trivial: every cell with n > k; distinct = (k, n, rng family, prefill). evaluations = cells + adds executed.");
+    ctx.set_rule("cells (k, n): exact regime n <= 4k+1 for k in {1,2,3,4,8,16,32} (thorough also 64, 100) with n in {k+1,k+2,2k,3k,4k-1,4k,4k+1} plus generated n; gap regime k in {64,128,256} (thorough 1024) with n from 4k+2 to 64k and 100000 plus generated n, and one cell k = 16, n = 4.8e7 (n/k = 3e6). Each cell runs many independent trials (SmallRng / ChaCha8 seeded from VERIF_SEED), the stream being position ids. Exact regime: every single position's inclusion count against Binomial(T, k/n) at z = 6 plus a chi-square over positions; gap regime: classes first k / plain phase / switch item / the k items after it / stream deciles / last k against k/n within the documented envelope (1 + ln(n/4k))/k plus 6 cluster-robust standard errors. A flagged cell is re-measured with 4x the trials and fresh seeds; only a confirmed deviation is a violation. Eight further cells feed a sampler, clear() it and then measure the same frequencies on the reused sampler. Non-trivial: every cell with n > k; distinct = (k, n, rng family, prefill). evaluations = cells + adds executed.");
     ctx.assume("probability is taken over SmallRng (xoshiro256++) and ChaCha8 seeds; z = 6 one-sided per assertion with confirmation");
     ctx.run_regressions(&[&C05]);
     ctx.run_fixed(&C05, cells(ctx.tier, ctx.seed));
